@@ -167,7 +167,12 @@ func (c *Checker) narrowMatch(node *ast.MatchExpressionNode, assume assumption) 
 	case assumptionTruthy:
 		c.narrowToType(node.Expression, c.TypeOf(node.Pattern))
 	case assumptionFalsy:
-		c.narrowExcludeType(node.Expression, c.TypeOf(node.Pattern))
+		// a failed match only rules out the values the pattern is guaranteed to match,
+		// `x match > 5` fails for the Int 3
+		if node.FullyCapturedType == nil {
+			return
+		}
+		c.narrowExcludeType(node.Expression, node.FullyCapturedType)
 	}
 }
 
